@@ -1,8 +1,14 @@
 /- Line-protocol verbs for C12.
 
    classify <kind>                        →  <status> <label-hex> relay|generated
-   stream  fault=… id=… kind=… up=… uptls=… close=… minor=… head=… framing=… body=…   →  <obs>
-   hstream fault=… id=… …                 →  <obs>   the same exchange through the handler variant (`handlerStream`)
+   stream  fault=… id=… kind=… up=… uptls=… close=… minor=… head=… framing=… body=… [log=<mode>]   →  <obs>
+                                             (`clientStreamLogged`; log = none|short-url|url|headers|body|errors|default)
+   hstream fault=… id=… … [log=<mode>]    →  <obs>   the same exchange through the handler variant (`handlerStreamLogged`)
+   accept  <c|emfile|enfile|eintr|econnaborted|econnreset|deadline|etimedout|closed|einval|plain,…>
+                                          →  per event: serve | refused | <shape>:retry:<ms> | <shape>:ret | <shape>:unseen
+                                             (`acceptRun` from a fresh loop; shape = netError temporary timeout closed as 0/1)
+   upload  log=<mode> framing=<cl:n|chunked> sent=<payload bytes> end=<clean|err>
+                                          →  complete <n> | incomplete <n>   what an origin reads of `forwardedUpload`
    label   <addr-hex>                     →  <hex>   `addr2Host`: the `host` label of the dialer's metrics
    utf8    <hex>                          →  0|1     `validUTF8` (= `utf8.ValidString`)
    holds   id=… kind=… … obs=<obs with , for space>                   →  true | false <reason>
@@ -126,6 +132,29 @@ def decodeFault (s : String) : Option Fault :=
   | ["body-cut", k, r, l] => do some (.bodyCut (← natOf k) (← boolOf r) (← natOf l))
   | _ => none
 
+def decodeLogMode : String → Option LogMode
+  | "none" => some .none | "short-url" => some .shortURL | "url" => some .url | "headers" => some .headers
+  | "body" => some .body | "errors" => some .errors | "default" => some .errors | _ => none
+
+def decodeAcceptEv : String → Option AcceptEv
+  | "c" => some .conn
+  | "emfile" => some (.err .emfile) | "enfile" => some (.err .enfile) | "eintr" => some (.err .eintr)
+  | "econnaborted" => some (.err .econnaborted) | "econnreset" => some (.err .econnreset)
+  | "deadline" => some (.err .deadline) | "etimedout" => some (.err .etimedout)
+  | "closed" => some (.err .closed) | "einval" => some (.err .einval) | "plain" => some (.err .plain)
+  | _ => none
+
+def encodeShape (s : AcceptShape) : String :=
+  s!"{ofBool s.netError}{ofBool s.temporary}{ofBool s.timeout}{ofBool s.closed}"
+
+def encodeAcceptOut : AcceptEv → AcceptOut → String
+  | _, .served => "serve"
+  | _, .refused => "refused"
+  | .err e, .action (.retry d) => s!"{encodeShape e.shape}:retry:{d}"
+  | .err e, .action .ret => s!"{encodeShape e.shape}:ret"
+  | .err e, .unseen => s!"{encodeShape e.shape}:unseen"
+  | .conn, _ => "?"
+
 def encodeClose : CloseKind → String
   | .fin => "fin" | .rst => "rst"
 
@@ -200,13 +229,27 @@ def handle : List String → String
       | .relay s => s!"{s} _ relay"
       | .generated s l => s!"{s} {hexOfBytes (b l)} generated"
   | "stream" :: toks =>
-    match decodeFault (kvD toks "fault" "none"), decodeExchange toks with
-    | some f, some ex => encodeObs (clientStream f ex)
-    | _, _ => "bad-op"
+    match decodeFault (kvD toks "fault" "none"), decodeExchange toks, decodeLogMode (kvD toks "log" "default") with
+    | some f, some ex, some m => encodeObs (clientStreamLogged m f ex)
+    | _, _, _ => "bad-op"
   | "hstream" :: toks =>
-    match decodeFault (kvD toks "fault" "none"), decodeExchange toks with
-    | some f, some ex => encodeObs (handlerStream f ex)
-    | _, _ => "bad-op"
+    match decodeFault (kvD toks "fault" "none"), decodeExchange toks, decodeLogMode (kvD toks "log" "default") with
+    | some f, some ex, some m => encodeObs (handlerStreamLogged m f ex)
+    | _, _, _ => "bad-op"
+  | ["accept", evs] =>
+    match (splitList evs).mapM decodeAcceptEv with
+    | none => "bad-op"
+    | some evs => joinList (List.zipWith encodeAcceptOut evs (acceptRun {} evs).2)
+  | "upload" :: toks =>
+    let r? : Option String := do
+      let m ← decodeLogMode (kvD toks "log" "default")
+      let fr ← decodeFraming (kvD toks "framing" "chunked")
+      let sent ← natOf (kvD toks "sent" "0")
+      let e ← match kvD toks "end" "clean" with | "clean" => some BodyEnd.clean | "err" => some BodyEnd.err | _ => none
+      let b : BodyStream := { pieces := tornPieces sent, ending := e }
+      let wire := forwardedUpload m fr b
+      some (if bodyParsesComplete fr wire then s!"complete {b.bytes.length}" else s!"incomplete {b.bytes.length}")
+    r?.getD "bad-op"
   | ["label", a] =>
     match bytesOfHex a with
     | some addr => hexOfBytes (addr2Host addr)
